@@ -361,12 +361,34 @@ func keysOf(s *Struct, mapWay int, aliasOf func(f *Field) string) (map[string][]
 	return m, order
 }
 
+// hidden: field suppression annotations. dynamicgo.deprecated hides a field on every side; api.none hides it in
+// structs reached from a RESPONSE (not from a request, not from an exception).
+func hidden(f *Field, target int) bool {
+	for _, a := range f.Annos {
+		if a.K == "dynamicgo.deprecated" || (a.K == "api.none" && target == tgtResponse) {
+			return true
+		}
+	}
+	return false
+}
+
 func (c *cmp) structure(sd *thrift.StructDescriptor, s *Struct, feat, where string, target int, root bool) {
 	k := memoKey{sd, s, root, target}
 	if c.memo[k] {
 		return
 	}
 	c.memo[k] = true
+	// the fields this side is to see
+	{
+		vis := *s
+		vis.Fields = nil
+		for _, f := range s.Fields {
+			if !hidden(f, target) {
+				vis.Fields = append(vis.Fields, f)
+			}
+		}
+		s = &vis
+	}
 	sf := featOf(s.Feat, feat)
 	where = where + ":" + s.Name
 	if sd.Name() != s.Name {
